@@ -310,6 +310,97 @@ def expand(cfg, hist):
     return out
 
 
+# -- a re-defined helper that lands on the address of a dead one -----------------------------------------------------
+AR_HELPERS = 48
+
+
+def _ar_src(i, gen):
+    return "def h%d():\n    return %s\n" % (i, {1: "A", 2: "A + 0", 3: "B"}[gen])
+
+
+def _ar_main():
+    return ("from twosigma.memento import memento_function\nA = 1\nB = 2\n@memento_function\ndef f():\n    return %s\n"
+            % " + ".join("h%d()" % i for i in range(AR_HELPERS)))
+
+
+def _ar_exec(mod, src, n=[0]):
+    import linecache
+
+    n[0] += 1
+    fname = "<vf-c13-ar-%d>" % n[0]
+    linecache.cache[fname] = (len(src), None, src.splitlines(True), fname)
+    exec(compile(src, fname, "exec"), mod.__dict__)
+
+
+def _ar_module(root):
+    import sys
+    import types
+
+    farm.set_env(os.path.join(root, "store"))
+    mod = types.ModuleType("vf_c13_ar")
+    mod.__package__ = ""
+    sys.modules["vf_c13_ar"] = mod
+    return mod
+
+
+def _ar_fresh(root):
+    mod = _ar_module(root)
+    for i in range(AR_HELPERS):
+        _ar_exec(mod, _ar_src(i, 3 if i == 0 else 2))
+    _ar_exec(mod, _ar_main())
+    return mod.f.version()
+
+
+def _ar_history(root, max_attempts):
+    """Helpers reading A are versioned, replaced and released; then h0 is re-defined (now reading B) again and again -
+    every attempt kept alive - until the new function object sits at the address of one of the dead helpers."""
+    import gc
+
+    mod = _ar_module(root)
+    for i in range(AR_HELPERS):
+        _ar_exec(mod, _ar_src(i, 1))
+    _ar_exec(mod, _ar_main())
+    v1 = mod.f.version()
+    dead = {id(getattr(mod, "h%d" % i)) for i in range(AR_HELPERS)}
+    for i in range(AR_HELPERS):
+        _ar_exec(mod, _ar_src(i, 2))
+    v2 = mod.f.version()
+    gc.collect()
+    keep, versions, reused = [], [], None
+    for k in range(max_attempts):
+        _ar_exec(mod, _ar_src(0, 3))
+        versions.append(mod.f.version())  # asked after EVERY re-definition
+        if id(mod.h0) in dead:
+            reused = k + 1
+            break
+        keep.append(mod.h0)
+    return {"v1": v1, "v2": v2, "versions": versions, "reused_after": reused}
+
+
+def addr_reuse_case(max_attempts):
+    top = scratch_dir("c13ar")
+    out = {"evaluations": 1, "states": 0, "transitions": 0, "traces": 1, "violations": [], "outcomes": [], "caps": []}
+    try:
+        want = farm.fork_call(_ar_fresh, os.path.join(top, "f"))
+        h = farm.fork_call(_ar_history, os.path.join(top, "h"), max_attempts)
+    except farm.ChildFailed as e:
+        raise HarnessError("address re-use child failed: %s" % e)
+    finally:
+        rm(top)
+    out["transitions"] = out["states"] = len(h["versions"])
+    wrong = [k for k, v in enumerate(h["versions"]) if v != want]
+    if wrong:
+        out["violations"].append(("helper-redefined-at-a-freed-address|stale-or-wrong",
+                                  "after re-definition #%d of helper h0 (it now reads B; address of a dead helper re-used: %s) version() of f is %s, a fresh "
+                                  "process computes %s" % (wrong[0] + 1, h["reused_after"] == wrong[0] + 1, h["versions"][wrong[0]], want),
+                                  {"addr_reuse": max_attempts}))
+    if h["reused_after"] is None:
+        out["caps"].append("no re-defined helper landed on the address of a dead one within %d re-definitions" % max_attempts)
+    out["outcomes"].append("addr-reuse|reused_after=%s" % h["reused_after"])
+    out["reused_after"] = h["reused_after"]
+    return out
+
+
 def run(ctx):
     thorough = ctx.tier == "thorough"
     depth = 4 if thorough else 3
@@ -327,12 +418,24 @@ def run(ctx):
     r = vbfs.explore(expand, cfg, vbfs.digest("init"), max_depth=depth, label="c13")
     r["caps"] = [c for c in r["caps"] if "depth cap" not in c]
     ctx.merge([r])
+    ar = addr_reuse_case(4000 if thorough else 1000)
+    ctx.merge([ar])
+    ctx.extra["address_reuse"] = {"helpers": AR_HELPERS, "redefinitions_until_a_freed_address_was_reused": ar["reused_after"]}
+    ctx.rule += (" Address re-use: %d plain helpers versioned, replaced and released, then one helper re-defined (reading another global) "
+                 "until its function object sits at the address of a dead helper; version() asked after every re-definition and compared "
+                 "with a fresh process." % AR_HELPERS)
     ctx.extra["frontier_per_level"] = r["per_level"]
     ctx.extra["depth"] = depth
     ctx.count(evaluations=ctx.transitions)
 
 
 def replay(ctx, art):
+    if "addr_reuse" in art["artefact"]:
+        r = addr_reuse_case(art["artefact"]["addr_reuse"])
+        for v in r["violations"]:
+            print(v[0], "\n", v[1])
+        print("REPLAY property=C13 result=%s" % bool(r["violations"]))
+        return 1 if r["violations"] else 0
     h = tuple(art["artefact"]["history"])
     out = expand((len(h), 0), h[:-1])
     bad = [x[2] for x in out if x[0] == h[-1] and x[2]]
